@@ -20,6 +20,10 @@ func coreC02(tier string) []RunSpec {
 	for k := 0; k < 3; k++ {
 		out = append(out, RunSpec{Profile: "core:forged-invoice-same-hash", Params: map[string]int{"force": mwKind("adversarial"), "advmode": 9, "fee": 0, "k": k}})
 	}
+	for fi := range c02Fees {
+		out = append(out, RunSpec{Profile: "core:swap-outputs-near-2^64", Params: map[string]int{"force": mwKind("adversarial"), "advmode": 10, "fee": fi}})
+	}
+	out = append(out, RunSpec{Profile: "core:mint-outputs-wrap", Params: map[string]int{"force": mwKind("adversarial"), "advmode": 11, "fee": 0}})
 	return out
 }
 
